@@ -133,33 +133,36 @@ func checkC04(c *Ctx) {
 
 	// ---- R3 -------------------------------------------------------------------------
 	var goGet ssa.Instruction
+	body := m.bodyFns(vf)
 	for _, sp := range m.Spawns() {
-		if sp.Fn == vf && m.spawnsStoreOp(sp.At) {
+		if containsFn(body, sp.Fn) && m.spawnsStoreOp(sp.At) {
 			goGet = sp.At
 		}
 	}
 	var pre, wait *ssa.Select
-	eachInstr(vf, func(in ssa.Instruction) {
-		s, ok := in.(*ssa.Select)
-		if !ok {
-			return
-		}
-		hasDone := false
-		for _, st := range s.States {
-			if x := m.Sym.Of(st.Chan); x.Op == "invoke" && strings.HasSuffix(x.Name, "Context.Done") && len(x.Args) == 1 && x.Args[0].Op == "param" {
-				hasDone = true
+	for _, bf := range body {
+		eachInstr(bf, func(in ssa.Instruction) {
+			s, ok := in.(*ssa.Select)
+			if !ok {
+				return
 			}
-		}
-		if !hasDone {
-			return
-		}
-		if !s.Blocking && goGet != nil && dominatesInstr(s, goGet) {
-			pre = s
-		}
-		if s.Blocking && goGet != nil && dominatesInstr(goGet, s) {
-			wait = s
-		}
-	})
+			hasDone := false
+			for _, st := range s.States {
+				if x := m.Sym.Of(st.Chan); x.Op == "invoke" && strings.HasSuffix(x.Name, "Context.Done") && len(x.Args) == 1 && x.Args[0].Op == "param" {
+					hasDone = true
+				}
+			}
+			if !hasDone || goGet == nil {
+				return
+			}
+			if !s.Blocking && m.dominatesLifted(vf, s, goGet) {
+				pre = s
+			}
+			if s.Blocking && m.dominatesLifted(vf, goGet, s) {
+				wait = s
+			}
+		})
+	}
 	if goGet == nil {
 		// Get issued inline
 		c.undecided("R3", "context checked before the read", firstInstr(vf), "the Get is not issued from a goroutine of the validation function: the accepted idiom (goroutine + select) was not found")
@@ -224,10 +227,19 @@ func checkC04(c *Ctx) {
 
 	// ---- R5 -------------------------------------------------------------------------
 	n5 := 0
+	var r5Fns []*ssa.Function
 	for _, f := range m.Funcs {
 		if f == vf || f.Parent() != nil || len(cfgLoops(f)) == 0 {
 			continue
 		}
+		// the loop function and the single-call-site functions its body was split into
+		for _, g := range m.bodyFns(f) {
+			if g != vf && !containsFn(r5Fns, g) {
+				r5Fns = append(r5Fns, g)
+			}
+		}
+	}
+	for _, f := range r5Fns {
 		eachInstr(f, func(in ssa.Instruction) {
 			ifi, ok := in.(*ssa.If)
 			if !ok {
